@@ -211,13 +211,37 @@ def check_and_report(run, pid, drv, scenarios, name, keyprefix=""):
         begin = scenario_of_rejection(r)
         if begin is None:
             raise V.Inconclusive("cannot locate the scenario of a rejected line")
-        re_lines, _ = run_scenarios(pid, drv, [replay_scenario(begin)], name=name + "-rerun", nproc=1)
+        # the scheduler makes a run deterministic up to what the goroutines do between two gates; a rejection is a
+        # verdict only if the scenario is rejected again - it is re-run ten times
+        sc = replay_scenario(begin)
+        reps = []
+        for k in range(10):
+            t = dict(sc)
+            t["id"] = "%s~%d" % (sc.get("id"), k)
+            reps.append(t)
+        re_lines, _ = run_scenarios(pid, drv, reps, name=name + "-rerun", nproc=1)
         v2 = validate(pid, re_lines, name="tv-" + name + "-rerun")
         if v2.errors:
             raise V.Inconclusive("re-run validation tool errors: " + "\n".join(v2.errors)[:2000])
         if not v2.rejections:
-            run.notes.append("unreproduced rejection: " + (r["line"] or "")[:200])
-            raise V.Inconclusive("a rejected trace was accepted on re-run (scenario %s): %s" % (begin.get("id"), (r["line"] or "")[:300]))
+            # not reproduced in ten re-runs: kept (with its trace) in the evidence, not a verdict on the code
+            try:
+                sh = V.read_ndjson(r["shard"])
+                i = r["line_no"] - 1
+                j = i
+                while j > 0 and not is_begin(sh[j]):
+                    j -= 1
+                k = i
+                while k + 1 < len(sh) and not is_begin(sh[k + 1]):
+                    k += 1
+                saved = os.path.join(V.workdir(pid, None, clean=False), "unreproduced-%s.ndjson" % begin.get("id"))
+                with open(saved, "w") as f:
+                    f.write("\n".join(sh[j:k + 1]) + "\n")
+            except Exception:
+                saved = "?"
+            run.notes.append("rejection not reproduced in 10 re-runs of scenario %s (trace kept in %s): %s" % (begin.get("id"), saved, (r["line"] or "")[:200]))
+            V.log("  NOTE: the rejection of scenario %s was not reproduced in 10 re-runs; its trace is kept in %s" % (begin.get("id"), saved))
+            continue
         r2 = v2.rejections[0]
         key = keyprefix + rejection_key(r2)
         desc = "scenario %s (sched=%r, breakAt=%s, compression=%s): the specification rejects line %d (%s): %s" % (
